@@ -176,7 +176,7 @@ theorem bipIndex_of_natAbs {G : BipG} (h : G.WF) (start : Nat) {u v : Nat} (he :
   have hv : (G.rnbrs u)[(G.rnbrs u).idxOf v]? = some v := by
     rw [List.getElem?_eq_getElem hk, List.getElem_idxOf]
   have hedge : G.hasEdge (u : Int) (v : Int) = true := by
-    rw [BipG.hasEdge_iff]
+    rw [BipG.hasEdge_iff_mem]
     exact ⟨by omega, by omega, by simpa using he⟩
   unfold bipIndex
   simp only [hl]
@@ -212,7 +212,7 @@ theorem bipId_bipIndex {G : BipG} (h : G.WF) {start : Nat} {lit : Int} {u v : Na
           obtain ⟨hu, hv⟩ := hi
           subst hv
           rw [hu] at hh hid
-          have hh' := (BipG.hasEdge_iff G _ _).1 (Classical.not_not.1 hh)
+          have hh' := (BipG.hasEdge_iff_mem G _ _).1 (Classical.not_not.1 hh)
           exact ⟨by simpa using hh'.2.2, Classical.not_not.1 hid⟩
   · cases hi
 
@@ -362,9 +362,9 @@ theorem bipIndices_edge {G : BipG} (h : G.WF) (u v : Int) :
   unfold bipIndices
   simp only [Bool.not_eq_true]
   by_cases hh : G.hasEdge u v = true
-  · rw [if_pos ((BipG.hasEdge_iff G u v).1 hh)]
+  · rw [if_pos ((BipG.hasEdge_iff_mem G u v).1 hh)]
     simp [hh]
-  · rw [if_neg (fun hc => hh ((BipG.hasEdge_iff G u v).2 hc))]
+  · rw [if_neg (fun hc => hh ((BipG.hasEdge_iff_mem G u v).2 hc))]
     simp [hh]
 
 /-- on an edge pattern the result is again the filter of the enumeration -/
@@ -444,12 +444,12 @@ theorem graphStep_spec {B B' : BipG} {e : Nat × Nat} (hw : B.WF) (h : graphStep
     · exact Or.inl
     · rintro (hm | ⟨rfl, rfl⟩)
       · exact hm
-      · have := ((BipG.hasEdge_iff B _ _).1 hh).2.2
+      · have := ((BipG.hasEdge_iff_mem B _ _).1 hh).2.2
         have e1 : (min (e.1 : Int) (e.2 : Int)).toNat = min e.1 e.2 := by omega
         have e2 : (max (e.1 : Int) (e.2 : Int)).toNat = max e.1 e.2 := by omega
         rw [e1, e2] at this
         exact this
-  · refine ⟨BipG.wf_addEdge hw h, (BipG.addEdge_lr h).1, (BipG.addEdge_lr h).2, ?_⟩
+  · refine ⟨BipG.wf_addEdge hw h, (BipG.addEdge_lr_wf h).1, (BipG.addEdge_lr_wf h).2, ?_⟩
     intro a b
     rw [BipG.mem_addEdge h]
     constructor
@@ -523,7 +523,7 @@ theorem digraphFold_spec {succ : Bool} {es : List (Nat × Nat)} {B B' : BipG} (h
       · exact BipG.wf_addEdge hw h1) h2
     cases succ
     · have h1' : B.addEdge e1 e2 = .ok B₁ := h1
-      refine ⟨w2, by rw [l2, (BipG.addEdge_lr h1').1], by rw [r2, (BipG.addEdge_lr h1').2], ?_⟩
+      refine ⟨w2, by rw [l2, (BipG.addEdge_lr_wf h1').1], by rw [r2, (BipG.addEdge_lr_wf h1').2], ?_⟩
       intro a b
       rw [m2, BipG.mem_addEdge h1']
       simp only [Bool.false_eq_true, if_false, List.mem_cons, Prod.mk.injEq]
@@ -537,7 +537,7 @@ theorem digraphFold_spec {succ : Bool} {es : List (Nat × Nat)} {B B' : BipG} (h
         · exact Or.inl (Or.inr ⟨by omega, by omega⟩)
         · exact Or.inr hm
     · have h1' : B.addEdge e2 e1 = .ok B₁ := h1
-      refine ⟨w2, by rw [l2, (BipG.addEdge_lr h1').1], by rw [r2, (BipG.addEdge_lr h1').2], ?_⟩
+      refine ⟨w2, by rw [l2, (BipG.addEdge_lr_wf h1').1], by rw [r2, (BipG.addEdge_lr_wf h1').2], ?_⟩
       intro a b
       rw [m2, BipG.mem_addEdge h1']
       simp only [if_true, List.mem_cons, Prod.mk.injEq]
